@@ -1,0 +1,6 @@
+//go:build !verif
+
+package board
+
+// verifCheck is a no-op unless built with the verif tag.
+func (b *Board) verifCheck() {}
